@@ -26,7 +26,15 @@ Cases ==
   /\ Only(<<49, 46, 49, 49, 101, 51>>, 2, 14, 1)                           \* 1.11e3 base 2
   /\ Only(<<49, 47, 51>>, 10, 1, 3)                                        \* 1/3
   /\ Only(<<45, 49, 48, 48, 48, 47, 51>>, 10, -1000, 3)                    \* -1000/3
-  /\ Is(<<49, 54, 47, 51>>, 16, 16, 3) /\ Is(<<49, 54, 47, 51>>, 16, 22, 3) \* 16/3: decimal or hexadecimal
+  \* fractions are numerals of the base: no decimal reading in another base, no exponent marker
+  /\ Only(<<49, 54, 47, 51>>, 16, 22, 3)                                   \* 16/3 base 16 = 22/3
+  /\ Only(<<102, 102, 47, 55>>, 16, 255, 7)                                \* ff/7 base 16
+  /\ Only(<<49, 47, 49, 48, 48, 48>>, 16, 1, 4096)                         \* 1/1000 base 16 is not 1/1000
+  /\ Only(<<49, 47, 51, 101, 56>>, 16, 1, 1000)                            \* 1/3e8 base 16: e is a digit
+  /\ Only(<<45, 49, 47, 49, 49>>, 2, -1, 3)                                \* -1/11 base 2
+  /\ ~Supported(<<50, 53, 53, 47, 57>>, 8) /\ WrongBase(<<50, 53, 53, 47, 57>>, 8)     \* 255/9 in base 8
+  /\ ~WrongBase(<<50, 53, 53, 47, 55>>, 8) /\ ~WrongBase(<<78, 97, 78>>, 10) /\ WrongBase(<<49, 50, 97>>, 10)
+  /\ ~ExactOK(QFrac(1, 1000), <<49, 47, 49, 48, 48, 48>>, 16) /\ ExactOK(QFrac(1, 1000), <<49, 47, 51, 101, 56>>, 16)
   \* the letter e in bases >= 15: both readings
   /\ Is(<<49, 101, 50>>, 16, 482, 1) /\ Is(<<49, 101, 50>>, 16, 256, 1)     \* 1e2
   /\ Cardinality(V(<<49, 101, 50>>, 16)) = 2
@@ -57,6 +65,20 @@ Cases ==
   /\ ExactOK(QFrac(1, 3), <<48, 46, 91, 51, 93, 46, 46, 46>>, 10)
   /\ ~ExactOK(QFrac(1, 3), <<48, 46, 51, 91, 51, 52, 93, 46, 46, 46>>, 10)
   /\ \A r \in Readings(<<49, 46, 53, 101, 45, 50>>, 10) : QEq(r.ulp, QFrac(1, 1000))
+  \* exponent readings are weighed before they are computed: digit salad ending in e1234567 is refused at once,
+  \* true exponents of every size pass
+  /\ ~ExactOK(QFrac(5, 1), <<109, 115, 121, 46, 55, 101, 49, 50, 51, 52, 53, 54, 55>>, 36)    \* msy.7e1234567
+  /\ ~ApproxOK(QFrac(5, 1), <<109, 115, 121, 46, 55, 101, 49, 50, 51, 52, 53, 54, 55>>, 36)
+  /\ ~ApproxOK(QFrac(5, 1), <<51, 46, 55, 101, 45, 57, 57, 57, 57, 57, 57, 57>>, 16)          \* 3.7e-9999999
+  /\ Plausible(QFrac(1000, 1), <<49, 46, 48, 101, 51>>, 4, 10) /\ ~Plausible(QFrac(1000, 1), <<49, 46, 48, 101, 57>>, 4, 10)
+  /\ Plausible(QFrac(1, 1000), <<49, 46, 48, 101, 45, 51>>, 4, 10) /\ ~Plausible(QFrac(1, 1000), <<49, 46, 48, 101, 45, 57>>, 4, 10)
+  /\ \A b \in 2..36 : \A j \in {-40, -7, -1, 0, 1, 2, 9, 40} :                                \* 1.0ej = base^j, (base-1).(base-1)ej just below base^(j+1)
+        LET bj == IF j >= 0 THEN Q(Z(FALSE, BasePow(b, j)), <<1>>) ELSE Q(ZOne, BasePow(b, -j))
+            top == IF b <= 10 THEN 47 + b ELSE 86 + b
+            ex == IF j >= 0 THEN <<48 + (j \div 10), 48 + (j % 10)>> ELSE <<45, 48 + ((-j) \div 10), 48 + ((-j) % 10)>>
+        IN /\ ExactOK(bj, <<49, 46, 48, 101>> \o ex, b)
+           /\ Plausible(bj, <<top, 46, top, 101>> \o ex, 4, b)
+           /\ ApproxOK(QMul(bj, QFrac(b * b - 1, b)), <<top, 46, top, 101>> \o ex, b)
   /\ \A r \in Readings(<<49, 50, 101, 51>>, 10) : QEq(r.ulp, QFrac(1000, 1))
 
 \* the digit conversion agrees with BigNum's generic one in every base
